@@ -79,7 +79,9 @@ def _cases(draw, tier):
         b, feats = G.general_program(draw, cfg, max_steps=24, disable=NOLOCAL)
         split = split_items(draw, b.items)
         return {'kind': kind, 'isa': cfg, 'flat': b.items, 'split': split, 'lo': b.lo, 'links': draw(st.integers(0, 7)),
-                'idirs': draw(st.sampled_from([['inc_a', 'inc_b'], ['inc_b', 'inc_a', 'inc_a'], ['inc_a', 'inc_b', 'inc_c']]))}
+                'idirs': draw(st.sampled_from([['inc_a', 'inc_b'], ['inc_b', 'inc_a', 'inc_a'], ['inc_a', 'inc_b', 'inc_c'],
+                                               ['inc_a', '{ROOT}/inc_a', 'inc_b'], ['{ROOT}/inc_b', 'inc_a', './inc_b'],
+                                               ['inc_a', 'inc_b', '{ROOT}']]))}
     if kind == 'model':
         cfg = draw(G.layout_isa(zones=True, blocks=True))
         b, feats = G.general_program(draw, cfg, max_steps=22, extra=['include', 'include', 'include', 'include'])
@@ -89,7 +91,8 @@ def _cases(draw, tier):
                 d = draw(st.sampled_from(['', 'inc_a', 'inc_b']))
                 it['path'] = (d + '/' if d else '') + it['file']
         return {'kind': kind, 'isa': cfg, 'items': b.items, 'lo': b.lo, 'feats': sorted(feats), 'links': draw(st.integers(0, 7)),
-                'idirs': draw(st.sampled_from([['inc_a', 'inc_b'], ['inc_b', 'inc_a', 'inc_b']]))}
+                'idirs': draw(st.sampled_from([['inc_a', 'inc_b'], ['inc_b', 'inc_a', 'inc_b'], ['inc_a', '{ROOT}/inc_a', 'inc_b'],
+                                               ['inc_b', '{ROOT}', 'inc_a']]))}
     cfg = draw(G.layout_isa(zones=False))
     why = draw(st.sampled_from(['twice-direct', 'twice-nested', 'diamond', 'missing', 'ambiguous', 'self',
                                  'ambiguous-copy-next-to-includer', 'ambiguous-copy-next-to-nested-includer',
